@@ -641,27 +641,67 @@ func ruleNilArgs(w *World, r *Report, rule string) {
 			r.Undecided(rule, con, fi.Decl.Pos(), "parameter %s of %s not found", wt.param, wt.fn)
 			continue
 		}
-		fl := w.FlowOf(fi)
-		sol := fl.Solve(Spec{Must: true, Edge: func(b *cfg.Block, i int, cond ast.Expr, in Facts) (gen, kill []string) {
-			be, ok := unparen(cond).(*ast.BinaryExpr)
-			if cond == nil || !ok || (be.Op != token.EQL && be.Op != token.NEQ) {
+		// the parameter and the parameters of private checking helpers it is handed to
+		tracked := map[types.Object]bool{pObj: true}
+		helperFns := map[*FuncInfo]bool{}
+		argOfHelper := map[*ast.Ident]bool{}
+		var follow func(f *FuncInfo, o types.Object, depth int)
+		follow = func(f *FuncInfo, o types.Object, depth int) {
+			if depth == 0 {
 				return
 			}
-			if (objOf(info, be.X) == pObj && isNilIdent(info, be.Y)) || (objOf(info, be.Y) == pObj && isNilIdent(info, be.X)) {
-				if (be.Op == token.EQL) == (i == 0) {
-					gen = append(gen, "isnil")
-				} else {
-					gen = append(gen, "nonnil")
+			for _, c := range callsIn(f.Decl.Body, true) {
+				cal := callee(f.Pkg.TypesInfo, c)
+				if cal == nil || cal.Exported() || w.Decls[cal] == nil || w.Decls[cal].Pkg != f.Pkg {
+					continue
+				}
+				h := w.Decls[cal]
+				var params []*ast.Ident
+				for _, fl := range h.Decl.Type.Params.List {
+					params = append(params, fl.Names...)
+				}
+				for k, a := range c.Args {
+					id, ok := unparen(a).(*ast.Ident)
+					if !ok || f.Pkg.TypesInfo.Uses[id] != o || k >= len(params) {
+						continue
+					}
+					po := h.Pkg.TypesInfo.Defs[params[k]]
+					if po == nil || !nilTestsParam(h, po) {
+						continue
+					}
+					tracked[po] = true
+					helperFns[h] = true
+					argOfHelper[id] = true
+					follow(h, po, depth-1)
 				}
 			}
-			return
-		}})
+		}
+		follow(fi, pObj, 2)
+		edge := func(finfo *types.Info) func(b *cfg.Block, i int, cond ast.Expr, in Facts) (gen, kill []string) {
+			return func(b *cfg.Block, i int, cond ast.Expr, in Facts) (gen, kill []string) {
+				be, ok := unparen(cond).(*ast.BinaryExpr)
+				if cond == nil || !ok || (be.Op != token.EQL && be.Op != token.NEQ) {
+					return
+				}
+				if (tracked[objOf(finfo, be.X)] && isNilIdent(finfo, be.Y)) || (tracked[objOf(finfo, be.Y)] && isNilIdent(finfo, be.X)) {
+					if (be.Op == token.EQL) == (i == 0) {
+						gen = append(gen, "isnil")
+					} else {
+						gen = append(gen, "nonnil")
+					}
+				}
+				return
+			}
+		}
+		fl := w.FlowOf(fi)
+		sol := fl.Solve(Spec{Must: true, Global: globalPrefixes("nonnil", "isnil"),
+			Stop: func(h *FuncInfo) bool { return !helperFns[h] }, Edge: edge(info)})
 		bad := ""
 		// every use of the parameter other than in the nil test happens with nonnil known
 		for _, n := range fl.Nodes() {
 			uses := false
 			inspectNoLit(n, func(m ast.Node) bool {
-				if id, ok := m.(*ast.Ident); ok && info.Uses[id] == pObj {
+				if id, ok := m.(*ast.Ident); ok && info.Uses[id] == pObj && !argOfHelper[id] {
 					uses = true
 				}
 				return true
@@ -679,18 +719,42 @@ func ruleNilArgs(w *World, r *Report, rule string) {
 				break
 			}
 		}
-		for _, ex := range fl.Exits() {
-			if sol.AtExit(ex).Has("isnil") && bad == "" {
-				if ex.Ret == nil || len(ex.Ret.Results) == 0 {
-					bad = "the nil edge does not return an error"
-					continue
-				}
-				last := ex.Ret.Results[len(ex.Ret.Results)-1]
-				if o := objOf(info, last); o == nil || o.Name() != wt.sentinel {
-					bad = fmt.Sprintf("on the nil edge %s is returned, not %s", exprStr(last), wt.sentinel)
+		checkExits := func(f *FuncInfo, fsol *Sol, ffl *Flow) {
+			finfo := f.Pkg.TypesInfo
+			for _, ex := range ffl.Exits() {
+				if fsol.AtExit(ex).Has("isnil") && bad == "" {
+					if ex.Ret == nil || len(ex.Ret.Results) == 0 {
+						bad = "the nil edge does not return an error"
+						continue
+					}
+					last := ex.Ret.Results[len(ex.Ret.Results)-1]
+					if o := objOf(finfo, last); o == nil || o.Name() != wt.sentinel {
+						bad = fmt.Sprintf("on the nil edge %s is returned, not %s", exprStr(last), wt.sentinel)
+					}
 				}
 			}
 		}
+		checkExits(fi, sol, fl)
+		for h := range helperFns {
+			hfl := w.FlowOf(h)
+			checkExits(h, hfl.Solve(Spec{Must: true, Edge: edge(h.Pkg.TypesInfo)}), hfl)
+		}
+		// the helper's verdict is propagated: an exit on the non-nil edge of its error returns that error
 		r.Check(bad == "", rule, con, fi.Decl.Pos(), true, "nil "+wt.param+" is rejected with "+wt.sentinel+" before any use", wt.fn+": "+bad)
 	}
+}
+
+// nilTestsParam: the function compares parameter po against nil.
+func nilTestsParam(h *FuncInfo, po types.Object) bool {
+	info := h.Pkg.TypesInfo
+	found := false
+	ast.Inspect(h.Decl.Body, func(n ast.Node) bool {
+		if be, ok := n.(*ast.BinaryExpr); ok && (be.Op == token.EQL || be.Op == token.NEQ) {
+			if (objOf(info, be.X) == po && isNilIdent(info, be.Y)) || (objOf(info, be.Y) == po && isNilIdent(info, be.X)) {
+				found = true
+			}
+		}
+		return !found
+	})
+	return found
 }
